@@ -16,7 +16,8 @@ Inductive sexpr :=
   | SPar (e : sexpr)                 (* a redundant pair of parentheses written in the source *)
   | SUn (o : sym) (e : sexpr)        (* o in + - not *)
   | SBin (o : sym) (l r : sexpr)     (* o binary or ^ .^ *)
-  | SIf (c t e : sexpr).
+  | SIf (c t : sexpr) (elifs : list (sexpr * sexpr)) (e : sexpr)   (* if c then t {elseif c' then b'} else e *)
+  | SCall (f : fname) (args : list sexpr).                         (* f(e1, ..., en), n >= 1; arguments are expressions *)
 
 Definition is_sign (o : sym) : bool := match o with SPlus | SMinus => true | _ => false end.
 Definition is_mul (o : sym) : bool := match o with SMul | SDiv | SEMul | SEDiv => true | _ => false end.
@@ -50,12 +51,16 @@ Fixpoint wf (e : sexpr) : bool :=
   | SPar e => wf e
   | SUn o e => is_unop o && wf e
   | SBin o l r => is_binop o && wf l && wf r
-  | SIf c t e => wf c && wf t && wf e
+  | SIf c t el e => wf c && wf t && forallb (fun p => let '(c', b') := p in wf c' && wf b') el && wf e
+  | SCall f args => negb (match args with [] => true | _ => false end) && forallb wf args
   end.
 
 Definition atok (a : atom) : tok :=
   match a with AVar x => TId x | ANum n => TNum n | ABool true => TTrue | ABool false => TFalse | AStr s => TStr s end.
 Definition paren (ts : list tok) : list tok := TLp :: ts ++ [TRp].
+Definition ftoks (f : fname) : list tok := match f with FDer => [TDer; TLp] | FName x => [TId x; TLp] end.
+Fixpoint join (l : list (list tok)) : list tok :=      (* comma separated *)
+  match l with [] => [] | [x] => x | x :: r => x ++ TComma :: join r end.
 
 (* print e in a position that requires level q: minimal parentheses, plus the SPar ones *)
 Fixpoint pr (q : nat) (e : sexpr) : list tok :=
@@ -68,9 +73,12 @@ Fixpoint pr (q : nat) (e : sexpr) : list tok :=
   | SBin o l r =>
       let body := pr (lq o) l ++ TSym o :: pr (rq o) r in
       if q <=? blev o then body else paren body
-  | SIf c t e =>
-      let body := TIf :: pr 0 c ++ TThen :: pr 0 t ++ TElse :: pr 0 e in
+  | SIf c t el e =>
+      let body := TIf :: pr 0 c ++ TThen :: pr 0 t
+                  ++ concat (map (fun p => let '(c', b') := p in TElseif :: pr 0 c' ++ TThen :: pr 0 b') el)
+                  ++ TElse :: pr 0 e in
       if q <=? 1 then body else paren body
+  | SCall f args => ftoks f ++ join (map (pr 0) args) ++ [TRp]      (* a primary: never parenthesised *)
   end.
 
 Definition aexpr (a : atom) : expr :=
@@ -85,7 +93,9 @@ Fixpoint strip (e : sexpr) : expr :=
   | SPar e => strip e
   | SUn o e => Un o (strip e)
   | SBin o l r => Bin o (strip l) (strip r)
-  | SIf c t e => IfE [strip c] [strip t; strip e]
+  | SIf c t el e => IfE (strip c :: map (fun p => let '(c', _) := p in strip c') el)
+                        (strip t :: map (fun p => let '(_, b') := p in strip b') el ++ [strip e])
+  | SCall f args => Call f (map strip args)
   end.
 
 (* the tree the pymoca grammar builds: a unary sign written directly in front of an unparenthesised
@@ -99,9 +109,45 @@ Fixpoint rs (pend : option sym) (e : sexpr) : expr :=
   | SUn o e1 => wrap pend (if is_sign o then rs (Some o) e1 else Un o (rs None e1))
   | SBin m l r => if is_mul m then Bin m (rs pend l) (rs None r)
                   else wrap pend (Bin m (rs None l) (rs None r))
-  | SIf c t e => wrap pend (IfE [rs None c] [rs None t; rs None e])
+  | SIf c t el e => wrap pend (IfE (rs None c :: map (fun p => let '(c', _) := p in rs None c') el)
+                                   (rs None t :: map (fun p => let '(_, b') := p in rs None b') el ++ [rs None e]))
+  | SCall f args => wrap pend (Call f (map (rs None) args))
   end.
 Definition resign (e : sexpr) : expr := rs None e.
+
+(* induction principle for the nested lists *)
+Section SexprInd.
+  Variable P : sexpr -> Prop.
+  Hypothesis HAtom : forall a, P (SAtom a).
+  Hypothesis HPar : forall e, P e -> P (SPar e).
+  Hypothesis HUn : forall o e, P e -> P (SUn o e).
+  Hypothesis HBin : forall o l r, P l -> P r -> P (SBin o l r).
+  Hypothesis HIf : forall c t el e, P c -> P t -> Forall (fun p => P (fst p) /\ P (snd p)) el -> P e -> P (SIf c t el e).
+  Hypothesis HCall : forall f args, Forall P args -> P (SCall f args).
+  Fixpoint sexpr_ind' (e : sexpr) : P e :=
+    match e with
+    | SAtom a => HAtom a
+    | SPar e1 => HPar e1 (sexpr_ind' e1)
+    | SUn o e1 => HUn o e1 (sexpr_ind' e1)
+    | SBin o l r => HBin o l r (sexpr_ind' l) (sexpr_ind' r)
+    | SIf c t el e1 =>
+        HIf c t el e1 (sexpr_ind' c) (sexpr_ind' t)
+            ((fix go (l : list (sexpr * sexpr)) : Forall (fun p => P (fst p) /\ P (snd p)) l :=
+                match l with
+                | [] => Forall_nil _
+                | p :: l' => Forall_cons p (conj (sexpr_ind' (fst p)) (sexpr_ind' (snd p))) (go l')
+                end) el)
+            (sexpr_ind' e1)
+    | SCall f args =>
+        HCall f args ((fix go (l : list sexpr) : Forall P l :=
+                         match l with [] => Forall_nil _ | x :: l' => Forall_cons x (sexpr_ind' x) (go l') end) args)
+    end.
+End SexprInd.
+
+(* T2 side condition: the listener table re-read from parser.py is the one the theorems are stated for *)
+Definition ltable_eq_dec : forall a b : ltable, {a = b} + {a <> b}.
+Proof. repeat decide equality. Defined.
+Definition listener_ok (lt : ltable) : bool := if ltable_eq_dec lt std_lt then true else false.
 
 (* ---- exact evaluation: rationals and Booleans; type errors and strings are VErr (strict) ---- *)
 Inductive val := VQ (q : Qc) | VB (b : bool) | VErr.
